@@ -288,3 +288,34 @@ type zzActorT struct {
 }
 
 func (z *zzActorT) OnTerminate() { atomic.AddInt32(&z.t.n, 1) }
+
+// C16SubscribersTold: an object with three subscribers on three connections; the connection of one
+// of them (which one is free) is broken (its writes fail) but not yet cleaned up: when the object is
+// removed the two others are still told.
+func C16SubscribersTold() {
+	h := newSignalHandler()
+	h.Activate(Activation{ServiceID: 9, ObjectID: 1})
+	streams := []*zzStream{newZZStream(), newZZStream(), newZZStream()}
+	chans := make([]Channel, 3)
+	for i := range chans {
+		chans[i] = NewChannel(net.NewEndPoint(streams[i]), DefaultCap())
+		msg := zzFrame(net.Call, 9, 1, 0, uint32(10+i), zzRegisterPayload(1, 0x60, uint64(70+i)))
+		sym.Assert(h.RegisterEvent(&msg, chans[i]) == nil, "register-ok")
+	}
+	broken := sym.Choose("broken", 3)
+	streams[broken].failAt = streams[broken].writes + 1
+	h.OnTerminate()
+	for i := range streams {
+		if i == broken {
+			continue
+		}
+		told := false
+		for _, f := range streams[i].sentMessages() {
+			if f.Header.Type == net.Error && f.Header.ID == uint32(10+i) {
+				told = true
+			}
+		}
+		sym.Assert(told, "subscriber-not-told-of-termination")
+	}
+	sym.Reach("subscribers-told-done")
+}
